@@ -79,6 +79,16 @@ func staleSyncRaces(c *Ctx) {
 					}
 				}
 			}
+			var judging, verifies int32
+			if kind == "superseded-round-messages" {
+				// signature verifications made once the node waits for the committee of height 2: only the term of another
+				// height can make them (the node never has a committee for height 2)
+				cfg.KeyManager.(*FakeKeyManager).VerifyGate = func(sender []byte) {
+					if atomic.LoadInt32(&judging) == 1 {
+						atomic.AddInt32(&verifies, 1)
+					}
+				}
+			}
 			bm := &blockingMembership{FakeMembership: &FakeMembership{w: w, me: memberId(me)}, silentAt: 2, waiting: make(chan struct{})}
 			if kind == "superseded-round-messages" {
 				cfg.Membership = bm
@@ -213,6 +223,7 @@ func staleSyncRaces(c *Ctx) {
 				case <-time.After(2 * time.Second):
 				}
 				if reached {
+					atomic.StoreInt32(&judging, 1)
 					b2 := &FakeBlock{H: 2, Id: 900 + uint64(it)}
 					aL := &Adversary{net: net, km: &FakeKeyManager{w: w, me: memberId(0)}}
 					send(aL.mkPP(memberId(0), 100, 2, 0, b2))
@@ -221,6 +232,9 @@ func staleSyncRaces(c *Ctx) {
 					waitFor(func() bool { return hasRound(3) }, 1500*time.Millisecond)
 					time.Sleep(30 * time.Millisecond)
 					acted := ""
+					if n := atomic.LoadInt32(&verifies); n > 0 {
+						acted = fmt.Sprintf("%d signature verifications of messages of height 2", n)
+					}
 					for _, sc := range bu.Calls {
 						if sc.Height == 2 {
 							acted = fmt.Sprintf("consumer call %s for height 2", sc.Kind)
